@@ -44,6 +44,12 @@ DEVIATIONS = {
     'ack_per_key': (['C11'],
                     'a SETTINGS ACK applies one pending value of EVERY key instead of the changes of the one frame it answers '
                     '(ACK of the initial frame applies a later update_settings)'),
+    'content_length_rule_differs': (['C16'],
+                                    'the content-length check is not the RFC 7540 8.1.2.6 rule in several cases: a 204/304 response (or a '
+                                    'response to a HEAD request whose method was forgotten because the client sent trailers) that declares a '
+                                    'content-length and ends with an empty DATA frame is refused; a 204/304 response carrying as much payload '
+                                    'as it declares is accepted; the content-length of a 1xx block is applied to the final response; a message '
+                                    'that declares a length and ends with END_STREAM on a header block without reaching it is accepted'),
     'settings_shrink_stalls_window': (['C05'],
                                       'a local INITIAL_WINDOW_SIZE decrease, acknowledged by the peer after the application has '
                                       'acknowledged received DATA that was not yet credited back, takes the stream window to zero with '
